@@ -31,7 +31,7 @@
 //        nullable, unreachable, unproductive, attribute and payload-type shapes, the generator's own helper names as user names) + every grammar
 //        over nonterminals {S, A} and terminals {$X, $Y} whose right-hand sides have length <= 1 (930 files; length <= 2 sampled 1 in 97 in the
 //        quick tier, 1 in 3 in the thorough tier) + 300 pseudo-random files (5 000 thorough, see LALR below) + the example files of the repository. Layouts: 7. get_grammar_hash: every text of <= 4 lines
-//        (<= 5 thorough) over a 10-line alphabet, LF and CRLF, with and without final terminator. Compile check: 5 grammar shapes x 34 namings
+//        (<= 5 thorough) over a 10-line alphabet, LF and CRLF, with and without final terminator. Compile check: 5 grammar shapes x 56 namings
 //        (one internal name at a time on every user-chosen position, then all at once) + the valid grammars of the family.
 //        Validation: the family + every single renaming `identifier j := identifier i` and every first-letter case flip in 8 base files (about 2 000 files with
 //        0..4 simultaneous violations).
@@ -487,10 +487,10 @@ mod __vx_leafcheck {
     const DEFAULT_LOWER: [&str; 4] = ["fa", "fb", "fc", "fd"];
     /// the generator's own names (types, variants, constants, type parameter) ...
     const INTERNAL_UPPER: &[&str] = &["State", "Node", "Action", "RuleKind", "Eof", "Quasiterminal", "QuasiterminalKind", "NonterminalKind", "S", "Terminal",
-        "Shift", "Reduce", "Accept", "Token", "Error", "S0", "R0", "T", "Item", "State2", "Node2", "S2"];
+        "Shift", "Reduce", "Accept", "Token", "Error", "S0", "R0", "T", "Item", "State2", "Node2", "S2", "ACTION_TABLE", "GOTO_TABLE", "Reduce0", "Kind", "Rule", "Src"];
     /// ... and its locals, parameters and functions
     const INTERNAL_LOWER: &[&str] = &["states", "nodes", "quasiterminals", "top_state", "temp_top_state", "next_quasiterminal_kind", "t0", "t1", "rule_kind", "new_node",
-        "src", "node", "parse", "get_action", "terminal", "state", "new_state", "new_node_kind"];
+        "src", "node", "parse", "get_action", "terminal", "state", "new_state", "new_node_kind", "reduce_r0", "pop_and_reduce", "get_goto", "try_from", "from_terminal", "try_into_terminal", "n", "t", "e", "i"];
 
     fn instantiate(shape: &str, upper: &[String; 12], lower: &[String; 4]) -> String {
         let mut out = vec![];
